@@ -204,7 +204,9 @@ def _production_case(args):
     case = {"kind": "production", "step": step, "stored": stored,
             "nanvar": nanvar}
     tags = {"step": step}
-    feats = ["deform", "area_um", "time"]
+    # two float features with NaN patterns, a computed one and two integer
+    # features (their mean is not an integer)
+    feats = ["deform", "area_um", "time", "frame", "index_online"]
 
     def chk(path_or_ds, where, kind):
         if isinstance(path_or_ds, (str, os.PathLike)):
@@ -229,7 +231,8 @@ def _production_case(args):
                     ds.filter.manual[[1, 4]] = False
                     ds.apply_filter()
                 ds.export.hdf5(d / "o.rtdc", features=["deform", "area_um",
-                                                       "time", "frame"],
+                                                       "time", "frame",
+                                                       "index_online"],
                                filtered=step == "export-filtered")
             out += chk(d / "o.rtdc", "dclab.rtdc_dataset.export:Export.hdf5",
                        step)
